@@ -149,8 +149,13 @@ class SymNd:
 
 
 def _m_asarray(x, dtype=None, **k):
+    from .seq import SymSeq
+
     if isinstance(x, SymNd):
         return x
+    if isinstance(x, SymSeq):
+        # a 1-d array of the same elements (an integer dtype is ASSUMED wide enough for them)
+        return x.as_kind("list", copy=True)
     if isinstance(x, (list, tuple)):
         rows = [list(r) if isinstance(r, (list, tuple)) else r for r in x]
         return SymNd(rows)
